@@ -2,8 +2,8 @@
 from contracts_types import *
 NAME = 'quoting'
 FEATURES = []
-USES = ['use vstd::string::*;']
-PRELUDE = ['quoting.shim.rs', 'quoting.spec.rs']
+USES = ['use vstd::string::*;', 'use vstd::utf8::*;']
+PRELUDE = ['crop.spec.rs', 'crop.shim.rs', 'plain.spec.rs', 'plain.shim.rs', 'quoting.shim.rs', 'quoting.spec.rs']
 SUBST = [
     (r"YamlSerializer<'a, W: Write>", "YamlSerializer<'a>"),
     (r"impl<'a, W: Write> YamlSerializer<'a, W>", "impl<'a> YamlSerializer<'a>"),
@@ -13,6 +13,21 @@ SUBST = [
     (r'-> Result<\(\)>', '-> Result<(), SerError>'),
 ]
 SR = 'src/ser.rs'
+import importlib.util as _ilu, os as _os
+def _load(n):
+    sp = _ilu.spec_from_file_location('contracts_%s_for_quoting' % n, _os.path.join(_os.path.dirname(__file__), n + '.py'))
+    m = _ilu.module_from_spec(sp); sp.loader.exec_module(m); return m
+_pl = _load('plain')
+def _callee(path):
+    it = dict([x for x in _pl.ITEMS if x.get('path') == path][0])
+    it.update(trusted=True, props=[])
+    for k in ('canaries', 'proofs', 'loops', 'rewrites', 'pre_rewrites', 'lift_nested_fns'): it.pop(k, None)
+    return it
+WRITES = ('''r is Ok ==> ({ let t0 = old(self).out.text(); let t1 = final(self).out.text(); let b = s.spec_bytes();
+                ||| (t1 =~= t0 + s@ && !old(self).quote_all && !sp_ambiguous(b) && plain_reads_back(b, %s))
+                ||| t1 =~= t0.push('"') + dq_body(s@) + seq!['"']
+                ||| (t1 =~= t0.push('\\'') + sq_body(s@) + seq!['\\''] && old(self).quote_all && !needs_dq(s@)) })''')
+
 CHARS = [(1, 'chars')]
 ITEMS = [
     dict(src=SR, path='enum PendingFlow', derive='#[derive(Clone, Copy, PartialEq, Eq)]'),
@@ -86,4 +101,14 @@ ITEMS = [
                         && first_line_spaces(split_lines(s@), 0) == first_line_spaces(split_lines(s@), __i1 as int)''')],
                         decreases='__v1@.len() - __i1')},
          canaries=['C12:indent_indicator_counts_spaces_of_first_non_empty_line']),
+    # ---- the decision "plain or quoted" (C12): raw text is written only when YAML reads it back as the same string
+    _callee('fn is_plain_safe'), _callee('fn is_plain_value_safe'), _callee('fn has_unsafe_plain_edge'),
+    dict(src=SR, path='impl YamlSerializer/fn needs_double_quotes', trusted=True, props=[],
+         ensures=[('iterator_any_is_opaque', 'r == needs_dq(s@)')]),
+    dict(src=SR, path='impl YamlSerializer/fn write_plain_or_quoted', props=['C12', 'C01'],
+         ensures=[('C12:a_key_is_written_raw_only_if_it_reads_back_as_itself_else_quoted', WRITES % 'false')],
+         canaries=['C12:a_key_is_written_raw_only_if_it_reads_back_as_itself_else_quoted']),
+    dict(src=SR, path='impl YamlSerializer/fn write_plain_or_quoted_value', props=['C12', 'C01'],
+         ensures=[('C12:a_value_is_written_raw_only_if_it_reads_back_as_itself_else_quoted', WRITES % 'old(self).in_flow > 0')],
+         canaries=['C12:a_value_is_written_raw_only_if_it_reads_back_as_itself_else_quoted']),
 ]
